@@ -194,3 +194,33 @@ fn full_release_then_three_allocs() {
 }
 // @vt prop=C34 tier=quick feat=sp fs=600 bound="history across the trunk boundary: FULL head trunk (122 entries, the two topmost arbitrary distinct), release page 3 (arbitrary prior contents), then 3 allocations" outside="the other 120 entries are zero bytes (never read by these 3 allocations); longer histories" timeout=1800 mem=16
 vt_proof_fl! { unwind = 3; fn c34_full_trunk_release_then_three_allocs() { full_release_then_three_allocs(); }}
+
+/// Alternating history on one trunk: head trunk (page 1) with one arbitrary entry; release 2, allocate, release 3,
+/// allocate, allocate — interleaved releases and allocations, pages 2 / 3 with arbitrary prior contents.
+fn alternating_history() {
+    let mut st = store();
+    let top: u32 = kani::any(); kani::assume(top >= 10);
+    put_trunk(&mut st.pages[1], 0, 1, &[top]);
+    let mut fl = Freelist::with_head(1, 2);
+    let mut got = [0u32; 3]; let mut n = 0;
+    macro_rules! one { () => { match alloc_one(&mut fl, &mut st) { Some(Some(p)) => { got[n] = p; n += 1; } Some(None) => {} None => assert!(false, "role=allocate_does_not_error") } }; }
+    let r1 = core::mem::ManuallyDrop::new(fl.release(&mut st, 2)); assert!(r1.is_ok(), "role=release_ok");
+    assert!(fl.free_count() == 3, "role=release_adds_exactly_one_free_page");
+    one!();
+    assert!(n == 1 && fl.free_count() == 2, "role=allocate_removes_exactly_one_free_page");
+    let first = got[0];
+    assert!(first == 2 || first == top, "role=allocated_page_was_free");
+    let r2 = core::mem::ManuallyDrop::new(fl.release(&mut st, 3)); assert!(r2.is_ok(), "role=release_ok");
+    assert!(fl.free_count() == 3, "role=release_adds_exactly_one_free_page");
+    one!(); one!();
+    assert!(n == 3, "role=free_count_equals_pages_allocations_return");
+    assert!(fl.free_count() == 1, "role=allocate_removes_exactly_one_free_page");
+    // free set before the last two allocations: {1 (trunk), top, 2, 3} minus `first`
+    macro_rules! chk { ($i:expr) => {{ let p = got[$i];
+        assert!((p == 2 || p == 3 || p == top || p == 1) && p != first, "role=allocated_page_was_free"); }}; }
+    chk!(1); chk!(2);
+    assert!(got[1] != got[2], "role=no_page_handed_out_twice");
+    kani::cover!(first == 2, "w:lifo_returns_last_released");
+}
+// @vt prop=C34 tier=quick feat=sp fs=600 bound="alternating history on one trunk holding 1 arbitrary entry: release 2, allocate, release 3, allocate, allocate (pages 2 / 3 with arbitrary prior contents)" outside="longer alternations; more entries" timeout=1800 mem=16
+vt_proof_fl! { unwind = 3; fn c34_alternating_release_allocate() { alternating_history(); }}
